@@ -46,7 +46,7 @@ CFG = dict(
     imports=["From Verif.Common Require Import Packet PolicyRef Ipt.", "From Verif.C08 Require Import Model.",
              "From Verif.C11 Require Import Bpf.", "From Verif.C12 Require Import Model Spec.", "Open Scope string_scope."],
     checker="check_case",
-    n=dict(quick=36, thorough=500),
+    n=dict(quick=64, thorough=500),
     shard=6,
     deps=["Common", "C08", "C09", "C11"],
     harness_dirs=["C12", "C11"],
